@@ -220,11 +220,18 @@ def gen_case(rng, max_days):
         b = dt.date.fromisoformat(cfg['burn_in'][:10])
         if inst and inst[0].date() > b:
             T = b + dt.timedelta(days=rng.randint(0, (inst[0].date() - b).days - 1))
+    pre = rng.random() < 0.4
+    if cfg['market'].get('late') and 'market2' not in cfg:
+        # an asset without bars at the start: more often run on a handler that already served a session which looked
+        # past the cut day, with the cut before that asset's first bar
+        pre = rng.random() < 0.75
+        ld = dt.date.fromisoformat(sorted(cfg['market']['late'].values())[0])
+        if rng.random() < 0.5 and ld - dt.timedelta(days=1) >= d0:
+            T = ld - dt.timedelta(days=rng.randint(1, min(5, (ld - d0).days)))
     kind = rng.choice(REWRITES)
     if cfg.get('market2') and rng.random() < 0.6:
         kind = rng.choice(['remove_all', 'delete'])      # how far each vendor's files reach differs between the worlds
-    return {'cfg': cfg, 'rw': {'T': T.isoformat(), 'kind': kind, 'seed': rng.randint(0, 10 ** 6)},
-            'pre': rng.random() < 0.4}
+    return {'cfg': cfg, 'rw': {'T': T.isoformat(), 'kind': kind, 'seed': rng.randint(0, 10 ** 6)}, 'pre': pre}
 
 
 def shard_c07(spec, acc):
